@@ -251,6 +251,9 @@ func (r *Rand) Chance(num, den int) bool { return r.Intn(den) < num }
 
 func (r *Rand) Fork(label string) *Rand { return NewRand(simrt.Hash64(r.U64(), label)) }
 
+// Side derives an independent stream without advancing this one.
+func (r *Rand) Side(label string) *Rand { return NewRand(simrt.Hash64(r.s, label)) }
+
 func Pick[T any](r *Rand, xs []T) T { return xs[r.Intn(len(xs))] }
 
 func Shuffled[T any](r *Rand, xs []T) []T {
